@@ -42,13 +42,14 @@ fn component(rng: &mut Rng, i: usize) -> String {
         7 => "name with space".into(),
         8 => "link_out".into(),
         9 => "canary".into(),
+        10 => (*rng.pick(&["notes..txt", "...", "..hidden", "trailing..", "v1..2", "a.b", ".hidden", "...."])).to_string(),
         _ => format!("{}{}", ["dir", "file", "a", "b.txt", "sub"][rng.usize_below(5)], i),
     }
 }
 
 fn gen_name(rng: &mut Rng) -> String {
     match rng.below(19) {
-        16 => "link_out/existing".into(),
+        16 => if rng.chance(1, 2) { "link_out/existing".into() } else { format!("link_sib/pwned-sib{}", rng.below(9)) },
         17 => if rng.chance(1, 2) { "filelink".into() } else { "danglelink".into() },
         18 => format!("{}/inner{}", "N".repeat(255), rng.below(9)),
         0 => "{SB}/canary/pwned-abs".into(),
@@ -258,6 +259,7 @@ pub fn run_case(ctx: &mut Ctx, c: &Case) {
     let _ = std::fs::remove_dir_all(&sb);
     std::fs::create_dir_all(sb.join("canary")).unwrap();
     std::fs::create_dir_all(sb.join("sibling")).unwrap();
+    std::fs::create_dir_all(sb.join("out.old")).unwrap();
     std::fs::write(sb.join("canary/existing"), b"canary content").unwrap();
     std::fs::write(sb.join("sibling/existing"), b"sibling content").unwrap();
     let sb = std::fs::canonicalize(&sb).unwrap();
@@ -307,6 +309,8 @@ pub fn run_case(ctx: &mut Ctx, c: &Case) {
     }
     if c.symlink_in_out {
         let _ = std::os::unix::fs::symlink("../canary", out.join("link_out"));
+        // a sibling directory whose path starts, as a string, with the path of the output directory
+        let _ = std::os::unix::fs::symlink("../out.old", out.join("link_sib"));
         // and a symlink to an existing file outside
         let _ = std::os::unix::fs::symlink("../canary/existing", out.join("filelink"));
         // and a dangling one (its target, outside, does not exist yet)
@@ -320,6 +324,12 @@ pub fn run_case(ctx: &mut Ctx, c: &Case) {
     for n in contents.keys() {
         if n.starts_with('/') {
             ctx.count("musthit:absolute_name");
+        }
+        if c.symlink_in_out && n.starts_with("link_sib/") {
+            ctx.count("musthit:member_through_a_link_to_a_sibling_with_the_same_path_prefix");
+        }
+        if n.split('/').any(|x| x.contains("..") && x != "..") {
+            ctx.count("musthit:dots_that_are_not_a_parent_directory_component");
         }
         if c.symlink_in_out && n == "danglelink" {
             ctx.count("musthit:member_at_a_dangling_symlink");
@@ -421,7 +431,7 @@ pub fn run_case(ctx: &mut Ctx, c: &Case) {
     let conflict = |v: &Vec<String>| all_norm.iter().filter(|o| ***o == *v).count() > 1 || all_norm.iter().any(|o| o.len() != v.len() && (o.starts_with(v) || v.starts_with(o)));
     let any_conflict = all_norm.iter().any(|v| conflict(v));
     // a member whose path goes through the pre-existing symlink is refused by design (containment)
-    let through_symlink = |v: &Vec<String>| c.symlink_in_out && v.first().is_some_and(|x| x == "link_out" || x == "filelink" || x == "danglelink");
+    let through_symlink = |v: &Vec<String>| c.symlink_in_out && v.first().is_some_and(|x| x == "link_out" || x == "link_sib" || x == "filelink" || x == "danglelink");
     let symlink_involved = all_norm.iter().any(|v| through_symlink(v));
     if os_limits_ok && !any_conflict && !symlink_involved {
         ctx.count("archives_subject_to_must_extract");
